@@ -477,7 +477,7 @@ def api(g, cx, op, st):
     elif c == "l.edit_rm":
         # a positional field of the line is given a string (whatever the outcome), then the line, or a segment,
         # is removed: an edit must not leave the registry in a state where removal breaks
-        fields = list(l.positional_fieldnames) or ["name"]
+        fields = (list(l.positional_fieldnames) or ["name"]) + ["record_type"]
         fn = fields[op["li"] % len(fields)]
         val = v
         if op["li"] % 3 == 0:
